@@ -274,6 +274,15 @@ def inline_of(fd):
     return None
 
 
+def struct_of(fd):
+    """the nested structure (inline or class reference) a `<field>._mapper` entry applies to"""
+    if fd.get("k") == "struct":
+        return fd
+    if fd.get("k") in ("seqOf", "setOf", "tupleOf") and isinstance(fd.get("item"), dict):
+        return struct_of(fd["item"])
+    return None
+
+
 def inject_inline(rng, dg, cls):
     """make sure the key-renaming stream regularly meets an inline nested structure (directly and as
     array element) whose own key and nested keys can both be renamed"""
@@ -304,8 +313,8 @@ def gen_dict_mapper(rng, fields, depth=0):
     chosen = [n for n in names if rng.random() < 0.6] or names[:1]
     m = {n: _rename(rng, n) for n in chosen}
     for n, fd in fields:
-        inl = inline_of(fd)
-        if inl is not None and rng.random() < 0.85 and depth < 2:
+        inl = struct_of(fd)
+        if inl is not None and rng.random() < (0.85 if inl.get("inline") else 0.5) and depth < 2:
             m[n + "._mapper"] = gen_dict_mapper(rng, inl["fields"], depth + 1)
     return m
 
@@ -362,6 +371,10 @@ def gen_cases(rng, tier, n_classes):
             bkeys = []
         case = {"suite": "schema", "cls": cls, "kws": kws, "bdocs": bdocs, "bkeys": bkeys,
                 "re": gen.re_table(cls, kws, bdocs)}
+        # enum classes that are also int / str / float; earlier exports in the same process
+        case["enum_kinds"] = {n: rng.choice(["plain", "plain", "int", "flag", "str", "float"]) for n in sorted(gen.ENUMS)}
+        r = rng.random()
+        case["history"] = [] if r < 0.5 else ["self"] if r < 0.75 else ["sibling"] if r < 0.9 else ["self", "sibling", "self"]
         # oracle-only stream: a key-renaming serialization mapper (not in the Lean model)
         wrapper = len(cls["fields"]) == 1 and set(cls["required"]) == {cls["fields"][0][0]} and cls.get("addl", True) is False
         if mapper_stream and not wrapper:
@@ -436,8 +449,44 @@ def wf_error_key(err):
     return f"{last}:{err.validator}"
 
 
-def run_impl(case):
+def make_ctx(kinds):
+    """the enum classes of the case: plain Enum, or IntEnum / IntFlag / str- / float-mixin classes
+    (members that are also ints / strs / floats; by-name serialization and export must not change)"""
+    import enum as pyenum
     ctx = C.make_ctx()
+    for name, kind in (kinds or {}).items():
+        members = gen.ENUMS[name]
+        if kind == "int":
+            ctx.enums[name] = pyenum.IntEnum(name, {m: i + 1 for i, m in enumerate(members)})
+        elif kind == "flag":
+            ctx.enums[name] = pyenum.IntFlag(name, {m: 2 ** i for i, m in enumerate(members)})
+        elif kind == "str":
+            ctx.enums[name] = pyenum.Enum(name, {m: "v_" + m.lower() for m in members}, type=str)
+        elif kind == "float":
+            ctx.enums[name] = pyenum.Enum(name, {m: i + 0.5 for i, m in enumerate(members)}, type=float)
+    return ctx
+
+
+def export(cls, ctx, history):
+    """`structure_to_schema(cls, {})` after a history of earlier exports in the same process, each with a
+    fresh definitions dict as documented: the class itself, or another top-level class that shares its
+    nested classes"""
+    for op in history or []:
+        try:
+            if op == "self":
+                structure_to_schema(cls, {})
+            elif op == "sibling":
+                body = {f"s_{n}": dump.ClassReference(f._ty) for n, f in cls.get_all_fields_by_name().items()
+                        if isinstance(f, dump.ClassReference)}
+                if body:
+                    structure_to_schema(type("Sibling", (dump.Structure,), body), {})
+        except Exception:
+            pass
+    return structure_to_schema(cls, {})
+
+
+def run_impl(case):
+    ctx = make_ctx(case.get("enum_kinds"))
     decl = {k: v for k, v in case["cls"].items() if k != "collide"}
     try:
         cls = dump.build_class(decl, ctx)
@@ -457,7 +506,7 @@ def run_impl(case):
     collapsed = len(names) == 1 and set(decl["required"]) == set(names) and decl.get("addl", True) is False
     res["collapsed"] = collapsed
     try:
-        schema, defs = structure_to_schema(cls, {})
+        schema, defs = export(cls, ctx, case.get("history"))
         res["schema"] = dump.dump_value(schema, ctx)
         res["defs"] = dump.dump_value(defs, ctx)
     except Exception as e:
@@ -520,7 +569,12 @@ def run_impl(case):
                 r["ser_notjson"] = str(e)[:200]
                 insts.append(r)
                 continue
+            # the document is the JSON text: object keys are strings, a member of an IntEnum is written as its int
+            raw = C.rename_inline(dump.dump_value(doc, ctx), ctx)
+            doc = json.loads(json.dumps(doc))
             r["doc"] = C.rename_inline(dump.dump_value(doc, ctx), ctx)
+            if raw != r["doc"]:
+                r["doc_raw"] = raw
             doc_strings(doc, strings)
             if validator is not None:
                 try:
@@ -553,7 +607,7 @@ def run_impl(case):
             Deserializer(cls).deserialize(copy.deepcopy(doc))
             r["deser"] = {"ok": True}
         except Exception as e:
-            r["deser"] = {"err": C.err_name(e), "msg": str(e)[:200]}
+            r["deser"] = {"err": C.err_name(e), "msg": str(e)[:1500]}
         bres.append(r)
     res["bdocs"] = bres
     res["search"] = [[p, s, _search(p, s)] for p in sorted(pats) for s in sorted(strings)]
@@ -712,16 +766,51 @@ def has_class_ref(d):
     return False
 
 
-def admit_key(err, cls=None, inst=None, mapper=None):
+def mapped_key(name, mapper):
+    """the document key of a top-level field under the case's serialization mapper"""
+    if not mapper:
+        return name
+    if mapper.get("style") == "upper":
+        return name.upper()
+    if mapper.get("style") == "camel":
+        words = name.split("_")
+        return words[0] + "".join(w.title() for w in words[1:])
+    v = (mapper.get("d") or {}).get(name, name)
+    return v if isinstance(v, str) else name
+
+
+def submapper_reaches_ref(fd, sub):
+    """a `._mapper` entry that applies to a class reference (directly or through nested inline structures)"""
+    st = struct_of(fd)
+    if st is None or not isinstance(sub, dict):
+        return False
+    if not st.get("inline"):
+        return True
+    return any(submapper_reaches_ref(f, sub.get(n + "._mapper")) for n, f in st["fields"])
+
+
+def admit_key(err, cls=None, inst=None, mapper=None, mixin=False):
     """stable name of the phenomenon behind a validation error of a serialized valid instance"""
-    if mapper and mapper.get("style") in ("camel", "upper") and cls is not None and has_class_ref(cls["fields"]):
-        # TO_CAMELCASE / TO_LOWERCASE of the outer class also renames the keys of nested Structure classes when
-        # serializing, while their `$ref` definitions are exported with the nested class's own keys
-        return "enum-mapper-not-applied-to-definitions"
+    if mapper and cls is not None and has_class_ref(cls["fields"]):
+        # the outer class's mapper (TO_CAMELCASE / TO_LOWERCASE, or a `<field>._mapper` entry) also renames the keys
+        # of nested Structure classes when serializing, while their `$ref` definitions are exported with the nested
+        # class's own keys
+        if mapper.get("style") in ("camel", "upper"):
+            return "outer-mapper-not-applied-to-definitions"
+        if err.get("path"):
+            for n, fd in cls["fields"]:
+                if mapped_key(n, mapper) == err["path"][0] and has_class_ref(fd) and submapper_reaches_ref(fd, (mapper.get("d") or {}).get(n + "._mapper")):
+                    return "outer-mapper-not-applied-to-definitions"
     if err.get("instance") in ("True", "False") and '"boolean"' in json.dumps(err.get("schema")):
         return "raw-boolean-string"
+    if mixin and cls is not None and (err.get("path") or len(cls["fields"]) == 1):
+        fd0 = cls["fields"][0][1] if len(cls["fields"]) == 1 else \
+            dict((mapped_key(n, mapper), f) for n, f in cls["fields"]).get(err["path"][0])
+        if fd0 is not None and has_multifield(fd0) and enum_classes_used(fd0, set()):
+            return "mixin-enum-member-in-multifield"
     if cls is not None and (err.get("path") or len(cls["fields"]) == 1):
-        fd = cls["fields"][0][1] if len(cls["fields"]) == 1 else dict((n, f) for n, f in cls["fields"]).get(err["path"][0])
+        fd = cls["fields"][0][1] if len(cls["fields"]) == 1 else \
+            dict((mapped_key(n, mapper), f) for n, f in cls["fields"]).get(err["path"][0])
         if fd is not None and "nested-field-wrapper" in inexact_features(fd, set()):
             return "nested-field-wrapper"
     if err.get("validator") == "required" and not err.get("branches"):
@@ -743,6 +832,9 @@ def _admit_key(err):
     if v == "type" and isinstance(inst, bool) and err["value"] in ("integer", "number"):
         return "bool-as-number"
     if v == "enum" and isinstance(inst, bool):
+        return "bool-as-number"
+    if v == "enum" and isinstance(inst, (int, float)) and isinstance(err["value"], list) \
+            and any(isinstance(x, bool) and x == inst for x in err["value"]):
         return "bool-as-number"
     if v == "type" and isinstance(inst, dict) and err["value"] != "object":
         return "nested-field-wrapper"
@@ -787,7 +879,7 @@ def tags(case, impl, model):
         out.append("field-wrapper")
     for r in impl.get("insts", []):
         if "valid" in r:
-            out.append("instance:" + ("valid" if r["valid"] else "rejected:" + admit_key(r["error"], case["cls"])))
+            out.append("instance:" + ("valid" if r["valid"] else "rejected:" + admit_key(r["error"], case["cls"], r.get("x"), case.get("mapper"))))
     nv = sum(1 for r in impl.get("bdocs", []) if r.get("valid"))
     out.append(f"boundary-docs-admitted:{min(nv, 9)}")
     for fd in {fd["k"] for _, fd in case["cls"]["fields"]}:
@@ -802,6 +894,37 @@ def nontrivial(case):
 def describe(case, impl, model):
     return {"cls": case["cls"], "schema": impl.get("schema"), "defs": impl.get("defs"),
             "wf": impl.get("wf"), "instances": [{k: r.get(k) for k in ("doc", "valid")} for r in impl.get("insts", [])][:2]}
+
+
+def enum_classes_used(d, acc):
+    if isinstance(d, list):
+        for x in d:
+            enum_classes_used(x, acc)
+    elif isinstance(d, dict):
+        if d.get("k") == "enumCls":
+            acc.add(d["cls"])
+        for k, v in d.items():
+            if k not in ("values", "defaults"):
+                enum_classes_used(v, acc)
+    return acc
+
+
+def uses_mixin_enum(case):
+    """the class has an Enum field over an IntEnum / IntFlag / str- / float-mixin class: its members are also
+    numbers / strings for Python, which the Lean value model (members are a kind of their own) does not say"""
+    kinds = case.get("enum_kinds") or {}
+    return any(kinds.get(c, "plain") != "plain" for c in enum_classes_used(case["cls"]["fields"], set()))
+
+
+def has_multifield(d):
+    if isinstance(d, list):
+        return any(has_multifield(x) for x in d)
+    if isinstance(d, dict):
+        if d.get("k") in ("anyOf", "oneOf", "allOf", "notF") and not \
+                (d["k"] == "anyOf" and len(d["fields"]) == 2 and d["fields"][1].get("k") == "noneF"):
+            return True
+        return any(has_multifield(v) for k, v in d.items() if k not in ("values", "defaults"))
+    return False
 
 
 def correspondence(case, impl, model):
@@ -823,7 +946,7 @@ def correspondence(case, impl, model):
             return f"well-formedness: Lean wfDocument={model['wfImpl']}, Draft4Validator.check_schema+refs={want} ({impl.get('wf_err')}, {impl.get('bad_refs')})"
         if model["wfModel"] != model["wfImpl"]:
             return "wfDocument differs between model schema and real schema"
-    scope = S.in_model_scope(case["cls"])
+    scope = S.in_model_scope(case["cls"]) and not uses_mixin_enum(case)
     mi = iter(model.get("insts", []))
     for r in impl.get("insts", []):
         if "x" not in r:
@@ -838,8 +961,9 @@ def correspondence(case, impl, model):
                 if ("ok" in ms) != ("doc" in r):
                     if not ("err" in ms and "ser_err" in r):
                         return f"serialization: model {json.dumps(ms)[:200]}, real {json.dumps(r.get('doc', r.get('ser_err')))[:200]}"
-                elif "ok" in ms and not S._same(S.canon_doc(case["cls"], ms["ok"]), S.canon_doc(case["cls"], r["doc"])):
-                    return "serializations differ: model " + json.dumps(ms["ok"])[:250] + " real " + json.dumps(r["doc"])[:250]
+                elif "ok" in ms and not S._same(S.canon_doc(case["cls"], ms["ok"]),
+                                                S.canon_doc(case["cls"], r.get("doc_raw", r["doc"]))):
+                    return "serializations differ: model " + json.dumps(ms["ok"])[:250] + " real " + json.dumps(r.get("doc_raw", r["doc"]))[:250]
     mb = iter(model.get("bdocs", []))
     for dj, r in zip(case["bdocs"], impl.get("bdocs", [])):
         if "unbuildable" in r:
@@ -847,7 +971,7 @@ def correspondence(case, impl, model):
         m = next(mb)
         if "valid" in r and "validImpl" in m and m["validImpl"] != r["valid"]:
             return f"validator verdicts differ on a boundary document: Lean jsValid={m['validImpl']}, Draft4Validator={r['valid']}; doc " + json.dumps(dj)[:300]
-        if model.get("inExact") and "deser" in r and "deser" in m:
+        if model.get("inExact") and "deser" in r and "deser" in m and not uses_mixin_enum(case):
             if ("ok" in m["deser"]) != ("ok" in r["deser"]):
                 return f"deserialization verdicts differ on a boundary document: model {m['deser']}, real {r['deser']}; doc " + json.dumps(dj)[:300]
     return None
@@ -880,12 +1004,13 @@ def oracle(case, impl, model):
     mi = iter(model.get("insts", []))
     for r in impl.get("insts", []):
         m = next(mi, {}) if "x" in r else {}
-        if r.get("valid") is False and model.get("inFrag") and model.get("refsFaithful") and m.get("inRegion"):
+        if r.get("valid") is False and model.get("inFrag") and model.get("refsFaithful") and m.get("inRegion") \
+                and not uses_mixin_enum(case):
             fails.append(("admits:inside-the-proved-region",
                           "schema_admits_partial covers this (class, instance), yet the real schema rejects the real "
                           f"serialization: {r['error']['msg']}; doc " + json.dumps(r["doc"])[:200]))
         if r.get("valid") is False and model.get("refsFaithful") is not False:
-            fails.append((f"admits:{admit_key(r['error'], case['cls'], r.get('x'), case.get('mapper'))}",
+            fails.append((f"admits:{admit_key(r['error'], case['cls'], r.get('x'), case.get('mapper'), uses_mixin_enum(case))}",
                           f"serialization of a valid instance is rejected by the schema: {r['error']['msg']} at {'/'.join(r['error']['path'])}; doc " + json.dumps(r["doc"])[:200]))
         if "valid_crash" in r:
             fails.append(("validator-crash", "Draft4Validator raised on the emitted schema: " + r["valid_crash"]))
@@ -894,11 +1019,19 @@ def oracle(case, impl, model):
         for dj, r, ck in zip(case["bdocs"], impl.get("bdocs", []), case.get("bkeys") or [None] * len(case["bdocs"])):
             if r.get("valid") and "err" in r.get("deser", {}):
                 # the field(s) in which the document differs from the image of a valid instance
+                msg = r["deser"].get("msg", "")
+                if re.search(r"<\w+\.\w+: 'v_", msg):
+                    # the member of a str-mixin enum class in a KeyError: Enum.__set__ looks a member that is
+                    # also a str up by name
+                    fails.append(("exact:str-mixin-enum-member",
+                                  f"the schema admits the documented by-name form, the Deserializer raises ({r['deser']['err']}: {msg}): " + json.dumps(dj)[:200]))
+                    continue
                 base_ok = bool(impl.get("insts")) and "x" in impl["insts"][0]
-                suspects = [names[k] for k in (ck or []) if isinstance(k, str) and k in names] if base_ok else []
+                f1 = culprit_field(case["cls"], msg)
+                suspects = [f1] if f1 is not None else \
+                    ([names[k] for k in (ck or []) if isinstance(k, str) and k in names] if base_ok else [])
                 if not suspects:
-                    f1 = culprit_field(case["cls"], r["deser"].get("msg", ""))
-                    suspects = [f1] if f1 is not None else [fd for _, fd in case["cls"]["fields"]]
+                    suspects = [fd for _, fd in case["cls"]["fields"]]
                 ff = inexact_features(suspects, set())
                 # a positional array that is not shorter than its item list is not the known phenomenon
                 if "positional-shorter" in ff and len(suspects) == 1 and suspects[0]["k"] in ("tuplePos", "seqPos") \
@@ -915,7 +1048,7 @@ def oracle(case, impl, model):
 
 
 def culprit_field(cls, msg):
-    m = re.match(r"^(?:\w+: )?(\w+?)(?:_\d+|_key|_value)?:", msg or "")
+    m = re.match(r"^(?:\w+: |\w+\.)?(\w+?)(?:_\d+|_key|_value)?:", msg or "")
     names = dict((n, f) for n, f in cls["fields"])
     if m and m.group(1) in names:
         return names[m.group(1)]
